@@ -68,6 +68,8 @@ def run(prog, ctx):
         ctx.touch(f)
         for g, refs in query.global_refs(f).items():
             for ref in refs:
+                if any(a.k == "UnaryExprOrTypeTraitExpr" for a in ref.ancestors()):
+                    continue        # sizeof operand: not evaluated
                 name = g
                 if ref.j.get("dk") == "static_local":
                     name = "%s::%s" % (f.name, g)
@@ -120,6 +122,20 @@ def run(prog, ctx):
         else:
             ctx.ok("T2", "writers of %s" % name, objs[name]["where"],
                    "written only by %s" % (sorted(set(f.name for f, _, _ in writers.get(name, []))) or "nobody"))
+    for name, r in sorted(rows.items()):
+        if "readers" not in r or name not in objs:
+            continue
+        allowed_r = set(r["readers"])
+        rbad = [(f, ref) for (f, ref) in readers.get(name, []) if f.name not in allowed_r]
+        # a read-modify-write (x++, x += ..) is a read as well
+        rbad += [(f, ref) for (f, ref, w) in writers.get(name, []) if w in ("incremented", "compound-assigned") and f.name not in allowed_r]
+        if rbad:
+            f, ref = rbad[0]
+            ctx.fail("T2", "readers of %s" % name, ref.where,
+                     "%s reads the process-wide %s: results computed for one thread's private object then depend on what other "
+                     "threads are parsing (%s)" % (f.name, r["role"], r.get("readers_reason", "")), key="reader:%s:%s" % (name, f.name))
+        else:
+            ctx.ok("T2", "readers of %s" % name, objs[name]["where"], "read only by %s" % sorted(allowed_r))
     # the out-of-range buffer is touched only for codes outside the table
     es = prog.fn("econf_errString")
     cfg = es.cfg
